@@ -15,7 +15,7 @@ const ruleC20 = "C01 paths (weight on filters with every comparator kind, '..', 
 	"Non-trivial: >=1 opaque value is examined by a step, an operand or a function (measured by SPEC). Distinct = distinct (path, document)."
 
 func drawC20(rt *rapid.T) *Case {
-	g := gen.NewG(rt, gen.PathOpts{Funcs: true, RootOmit: true, FuncPct: 30, OperandFuncPct: 20, FilterHeavy: gen.Uniform(rt, "heavy", 2) == 0})
+	g := gen.NewG(rt, gen.PathOpts{Funcs: true, RootOmit: true, FuncPct: 30, OperandFuncPct: 20, FilterHeavy: gen.Uniform(rt, "heavy", 2) == 0, LongPaths: true})
 	p := g.Path()
 	r := gen.Render(p, gen.Canon)
 	d := g.Opaquify(g.Doc(p))
